@@ -123,4 +123,384 @@ example :
   · rintro a ⟨h1, h2, h3, h4⟩; simp only [V2.sub, V2.dot]; linarith
   · rintro b ⟨h1, h2, h3, h4⟩; simp only [V2.sub, V2.dot]; linarith
 
+/-! ## 2. ball / ball -/
+
+/-- **`distance_ball_ball` is the true minimum distance.** For radii `≥ 0` the value `D` returned for the balls
+`B(0, r1)`, `B(c, r2)` is non-negative, is a lower bound of `|b - a|` over all pairs (`D² ≤ |b - a|²`) and is attained
+by a pair of points of the balls. -/
+theorem distanceBallBall_spec (hs : LawfulSqrt sq) (r1 r2 : K) (c : V3 K) (hr1 : 0 ≤ r1) (hr2 : 0 ≤ r2) :
+    letI := fieldNum K sq
+    0 ≤ distanceBallBall r1 r2 c ∧
+    (∀ a b, BallAt r1 ⟨0, 0, 0⟩ a → BallAt r2 c b →
+      distanceBallBall r1 r2 c * distanceBallBall r1 r2 c ≤ (b.sub a).normSq) ∧
+    (∃ a b, BallAt r1 ⟨0, 0, 0⟩ a ∧ BallAt r2 c b ∧
+      (b.sub a).normSq = distanceBallBall r1 r2 c * distanceBallBall r1 r2 c) := by
+  generalize hD : @distanceBallBall K (fieldNum K sq) r1 r2 c = D
+  dsimp only [distanceBallBall] at hD
+  simp only [V3.normSq, V3.dot, V3.sub]
+  have hd0 : 0 ≤ c.x * c.x + c.y * c.y + c.z * c.z := by nlinarith [mul_self_nonneg c.x, mul_self_nonneg c.y, mul_self_nonneg c.z]
+  split_ifs at hD with hc <;> simp only [V3.normSq, V3.dot, fieldNum_sqrt] at hD hc
+  · subst hD
+    refine ⟨le_refl _, fun a b _ _ => ?_, ?_⟩
+    · nlinarith [mul_self_nonneg (b.x - a.x), mul_self_nonneg (b.y - a.y), mul_self_nonneg (b.z - a.z)]
+    · obtain ⟨p, hp1, hp2⟩ := ball_overlap_core r1 r2 c hr1 hr2 hc
+      exact ⟨p, p, hp1, hp2, by ring⟩
+  · push Not at hc
+    have hS0 := hs.nonneg _ hd0
+    have hSS := hs.sq_mul _ hd0
+    generalize sq (c.x * c.x + c.y * c.y + c.z * c.z) = S at *
+    subst hD
+    have hsum : 0 ≤ r1 + r2 := add_nonneg hr1 hr2
+    have hgt : r1 + r2 < S := by
+      by_contra h; push Not at h
+      nlinarith [mul_le_mul h h hS0 hsum]
+    refine ⟨by linarith, fun a b ha hb => ball_sep_core r1 r2 S c hr1 hr2 hS0 hSS hgt a b ha hb, ?_⟩
+    obtain ⟨h1, h2, h3⟩ := ball_attain_core r1 r2 S c (lt_of_le_of_lt hsum hgt) hSS
+    exact ⟨_, _, h1, h2, h3⟩
+
+/-- `distance_ball_ball` returns `0` exactly when the balls share a point. -/
+theorem distanceBallBall_zero_iff (hs : LawfulSqrt sq) (r1 r2 : K) (c : V3 K) (hr1 : 0 ≤ r1) (hr2 : 0 ≤ r2) :
+    letI := fieldNum K sq
+    distanceBallBall r1 r2 c = 0 ↔ ∃ p, BallAt r1 ⟨0, 0, 0⟩ p ∧ BallAt r2 c p := by
+  obtain ⟨h0, hlow, a, b, ha, hb, hab⟩ := distanceBallBall_spec sq hs r1 r2 c hr1 hr2
+  generalize @distanceBallBall K (fieldNum K sq) r1 r2 c = D at *
+  simp only [V3.normSq, V3.dot, V3.sub] at hlow hab
+  constructor
+  · intro hD
+    rw [hD] at hab
+    have e1 : b.x - a.x = 0 := by nlinarith [mul_self_nonneg (b.x - a.x), mul_self_nonneg (b.y - a.y), mul_self_nonneg (b.z - a.z)]
+    have e2 : b.y - a.y = 0 := by nlinarith [mul_self_nonneg (b.x - a.x), mul_self_nonneg (b.y - a.y), mul_self_nonneg (b.z - a.z)]
+    have e3 : b.z - a.z = 0 := by nlinarith [mul_self_nonneg (b.x - a.x), mul_self_nonneg (b.y - a.y), mul_self_nonneg (b.z - a.z)]
+    refine ⟨a, ha, ?_⟩
+    simp only [BallAt] at hb ⊢
+    have : a.x = b.x := by linarith
+    have : a.y = b.y := by linarith
+    have : a.z = b.z := by linarith
+    simp only [*]
+  · rintro ⟨p, hp1, hp2⟩
+    have := hlow p p hp1 hp2
+    nlinarith
+
+/-- **`closest_points_ball_ball` (3-D), all three outcomes.** For a unit quaternion, radii `≥ 0` and `margin ≥ 0`
+(the `assert!`), with ball 1 = `B(0, r1)` and ball 2 = `B(t, r2)` seen from frame 1 (`t = pos12.translation`):
+* `Intersecting` ⇒ the balls share a point;
+* `Disjoint` ⇒ every pair of points is farther apart than `margin`;
+* `WithinMargin(p1, p2)` ⇒ `p1 ∈ B(0,r1)`, `p2` (local to ball 2) `∈ B(0,r2)`, its image `pos12·p2 ∈ B(t,r2)`,
+  the pair is a closest pair (`|pos12·p2 - p1|² ≤ |b - a|²` for all pairs), its gap is `≤ margin` and `> 0`.
+Since the three geometric conditions exclude each other, each outcome occurs *exactly* when its condition holds. -/
+theorem closestPointsBallBall_spec (hs : LawfulSqrt sq) (pos12 : Iso3 K) (r1 r2 margin : K)
+    (hq : pos12.qi * pos12.qi + pos12.qj * pos12.qj + pos12.qk * pos12.qk + pos12.qw * pos12.qw = 1)
+    (hr1 : 0 ≤ r1) (hr2 : 0 ≤ r2) (hm : 0 ≤ margin) :
+    letI := fieldNum K sq
+    match closestPointsBallBall pos12 r1 r2 margin with
+    | none => False
+    | some .intersecting => ∃ p, BallAt r1 ⟨0, 0, 0⟩ p ∧ BallAt r2 pos12.t p
+    | some .disjoint => ∀ a b, BallAt r1 ⟨0, 0, 0⟩ a → BallAt r2 pos12.t b → margin * margin < (b.sub a).normSq
+    | some (.within p1 p2) =>
+        BallAt r1 ⟨0, 0, 0⟩ p1 ∧ BallAt r2 ⟨0, 0, 0⟩ p2 ∧ BallAt r2 pos12.t (pos12.act p2) ∧
+        (∀ a b, BallAt r1 ⟨0, 0, 0⟩ a → BallAt r2 pos12.t b → ((pos12.act p2).sub p1).normSq ≤ (b.sub a).normSq) ∧
+        ((pos12.act p2).sub p1).normSq ≤ margin * margin ∧ 0 < ((pos12.act p2).sub p1).normSq := by
+  generalize hR : @closestPointsBallBall K (fieldNum K sq) pos12 r1 r2 margin = R
+  dsimp only [closestPointsBallBall] at hR
+  obtain ⟨qi, qj, qk, qw, t⟩ := pos12
+  simp only at hq hR ⊢
+  have hd0 : 0 ≤ t.x * t.x + t.y * t.y + t.z * t.z := by nlinarith [mul_self_nonneg t.x, mul_self_nonneg t.y, mul_self_nonneg t.z]
+  have hS0 := hs.nonneg _ hd0
+  have hSS := hs.sq_mul _ hd0
+  have hsum : 0 ≤ r1 + r2 := add_nonneg hr1 hr2
+  rw [if_neg (not_not.2 hm)] at hR
+  split_ifs at hR with h1 h2 <;> subst hR <;> simp only [V3.norm, V3.normSq, V3.dot, fieldNum_sqrt] at h1 ⊢
+  · -- intersecting
+    simp only [V3.norm, V3.normSq, V3.dot, fieldNum_sqrt] at h2
+    generalize sq (t.x * t.x + t.y * t.y + t.z * t.z) = S at *
+    exact ball_overlap_core r1 r2 t hr1 hr2 (by nlinarith [mul_le_mul h2 h2 hS0 hsum])
+  · -- within
+    simp only [V3.norm, V3.normSq, V3.dot, fieldNum_sqrt] at h2
+    push Not at h2
+    have hrot := rot_invRot3 sq ⟨qi, qj, qk, qw, t⟩
+      (@V3.sdiv K (fieldNum K sq) t (sq (t.x * t.x + t.y * t.y + t.z * t.z))) hq
+    have hsm := rot_smul3 sq ⟨qi, qj, qk, qw, t⟩
+      (@Iso3.invRot K (fieldNum K sq) ⟨qi, qj, qk, qw, t⟩ (@V3.sdiv K (fieldNum K sq) t (sq (t.x * t.x + t.y * t.y + t.z * t.z)))) (-r2)
+    have hns := rot_normSq3 sq ⟨qi, qj, qk, qw, t⟩
+      (@V3.smul K (fieldNum K sq) (@Iso3.invRot K (fieldNum K sq) ⟨qi, qj, qk, qw, t⟩ (@V3.sdiv K (fieldNum K sq) t (sq (t.x * t.x + t.y * t.y + t.z * t.z)))) (-r2)) hq
+    simp only [Iso3.act]
+    rw [hsm, hrot] at hns ⊢
+    generalize sq (t.x * t.x + t.y * t.y + t.z * t.z) = S at *
+    have hSpos : 0 < S := lt_of_le_of_lt hsum h2
+    obtain ⟨a1, a2, a3⟩ := ball_attain_core r1 r2 S t hSpos hSS
+    simp only [V3.sdiv, V3.smul, V3.add, V3.sub, V3.normSq, V3.dot, BallAt] at hns a1 a2 a3 ⊢
+    have hloc : ∀ v : V3 K,
+        t.x / S * -r2 * (t.x / S * -r2) + t.y / S * -r2 * (t.y / S * -r2) + t.z / S * -r2 * (t.z / S * -r2) =
+          v.x * -r2 * (v.x * -r2) + v.y * -r2 * (v.y * -r2) + v.z * -r2 * (v.z * -r2) →
+        (v.x * -r2 - 0) * (v.x * -r2 - 0) + (v.y * -r2 - 0) * (v.y * -r2 - 0) + (v.z * -r2 - 0) * (v.z * -r2 - 0) ≤ r2 * r2 := by
+      intro v hv; linarith
+    refine ⟨by linarith, hloc _ hns, ?_⟩
+    clear hns hrot hsm hloc
+    have hgap : (t.x / S * -r2 + t.x - t.x / S * r1) * (t.x / S * -r2 + t.x - t.x / S * r1) +
+        (t.y / S * -r2 + t.y - t.y / S * r1) * (t.y / S * -r2 + t.y - t.y / S * r1) +
+        (t.z / S * -r2 + t.z - t.z / S * r1) * (t.z / S * -r2 + t.z - t.z / S * r1) = (S - (r1 + r2)) * (S - (r1 + r2)) := by
+      linarith
+    rw [hgap]
+    refine ⟨by linarith, ?_, ?_, ?_⟩
+    · intro a b ha hb
+      exact ball_sep_core r1 r2 S t hr1 hr2 hS0 hSS h2 a b ha hb
+    · nlinarith
+    · exact mul_pos (sub_pos.2 h2) (sub_pos.2 h2)
+  · -- disjoint
+    push Not at h1
+    generalize sq (t.x * t.x + t.y * t.y + t.z * t.z) = S at *
+    intro a b ha hb
+    have h2 : r1 + r2 < S := by linarith
+    have := ball_sep_core r1 r2 S t hr1 hr2 hS0 hSS h2 a b ha hb
+    simp only [V3.sub]
+    nlinarith [mul_pos (show 0 < S - (r1 + r2) - margin by linarith) (show 0 < S - (r1 + r2) + margin by linarith)]
+
+/-- non-vacuity of the side conditions of `closestPointsBallBall_spec`: the 90° rotation about `z`,
+`(qi,qj,qk,qw) = (0,0,3/5·…)` replaced by the exact Pythagorean quaternion `(0, 0, 3/5, 4/5)`, is a unit quaternion.
+(`LawfulSqrt` itself is satisfiable in every real-closed field, e.g. `Real.sqrt` on `ℝ`; `ℚ` has no lawful square root.) -/
+example : ((0 : ℚ) * 0 + 0 * 0 + (3/5) * (3/5) + (4/5) * (4/5) = 1) ∧ (0 : ℚ) ≤ 1 ∧ (0 : ℚ) ≤ 1/4 := by norm_num
+
+/-! ## 3. half-space / support map -/
+
+/-- the half-space `{p | n·p ≤ 0}` (the set of `HalfSpace3.Mem`, written without a `Num` instance) -/
+def HalfAt (n : V3 K) (p : V3 K) : Prop := n.x * p.x + n.y * p.y + n.z * p.z ≤ 0
+
+/-- the C10 support-map contract **in one direction** for a set `S`: `q ∈ S` maximises `dir·x` over `S` -/
+def SupportsIn (S : V3 K → Prop) (dir q : V3 K) : Prop :=
+  S q ∧ ∀ x, S x → dir.x * x.x + dir.y * x.y + dir.z * x.z ≤ dir.x * q.x + dir.y * q.y + dir.z * q.z
+
+/-- a local set `S2` placed by the isometry `pos12` (seen from frame 1): `w` belongs to it iff `pos12⁻¹·w ∈ S2` -/
+def Placed3 (pos12 : Iso3 K) (S2 : V3 K → Prop) (w : V3 K) : Prop :=
+  S2 (@Iso3.invAct K (fieldNum K sq) pos12 w)
+
+/-- **`distance_halfspace_support_map` is the true minimum distance** between the half-space `{n·p ≤ 0}` (`|n| = 1`)
+and any set `S` whose support map honours the contract in direction `-n`: the result `D` is `≥ 0`, a lower bound of
+`|b - a|` over all `a` in the half-space and `b ∈ S`, and attained. -/
+theorem distanceHalfspaceSupportMap_spec (S : V3 K → Prop) (supp : Iso3 K → V3 K → V3 K) (pos12 : Iso3 K) (n : V3 K)
+    (hn : n.x * n.x + n.y * n.y + n.z * n.z = 1) :
+    letI := fieldNum K sq
+    SupportsIn S n.neg (supp pos12 n.neg) →
+    0 ≤ distanceHalfspaceSupportMap supp pos12 n ∧
+    (∀ a b, HalfAt n a → S b →
+      distanceHalfspaceSupportMap supp pos12 n * distanceHalfspaceSupportMap supp pos12 n ≤ (b.sub a).normSq) ∧
+    (∃ a b, HalfAt n a ∧ S b ∧
+      (b.sub a).normSq = distanceHalfspaceSupportMap supp pos12 n * distanceHalfspaceSupportMap supp pos12 n) := by
+  simp only [distanceHalfspaceSupportMap, fieldNum_nmax]
+  generalize @supp pos12 (@V3.neg K (fieldNum K sq) n) = q
+  rintro ⟨hq, hmax⟩
+  simp only [V3.neg, V3.dot, V3.normSq, V3.sub, HalfAt] at hmax ⊢
+  set δ := n.x * q.x + n.y * q.y + n.z * q.z with hδ
+  refine ⟨le_max_right _ _, fun a b ha hb => ?_, ?_⟩
+  · have hb' := hmax b hb
+    rcases le_total δ 0 with h0 | h0
+    · rw [max_eq_right h0]
+      nlinarith [mul_self_nonneg (b.x - a.x), mul_self_nonneg (b.y - a.y), mul_self_nonneg (b.z - a.z)]
+    · rw [max_eq_left h0]
+      have := sep_along3 n ⟨b.x - a.x, b.y - a.y, b.z - a.z⟩ 1 δ one_pos (by simp only [dot3]; linarith) h0
+        (by simp only [dot3]; nlinarith)
+      simpa [dot3] using this
+  · rcases le_total δ 0 with h0 | h0
+    · rw [max_eq_right h0]
+      exact ⟨q, q, h0, hq, by ring⟩
+    · rw [max_eq_left h0]
+      refine ⟨⟨q.x - n.x * δ, q.y - n.y * δ, q.z - n.z * δ⟩, q, ?_, hq, ?_⟩
+      · show n.x * (q.x - n.x * δ) + n.y * (q.y - n.y * δ) + n.z * (q.z - n.z * δ) ≤ 0
+        nlinarith
+      · show (q.x - (q.x - n.x * δ)) * (q.x - (q.x - n.x * δ)) + (q.y - (q.y - n.y * δ)) * (q.y - (q.y - n.y * δ))
+            + (q.z - (q.z - n.z * δ)) * (q.z - (q.z - n.z * δ)) = δ * δ
+        nlinarith
+
+/-- **`closest_points_halfspace_support_map`, all three outcomes.** Half-space `{n·p ≤ 0}` with `|n| = 1`, shape 2 =
+local set `S2` placed by the unit-quaternion isometry `pos12`, `margin ≥ 0`, support map honouring the contract in
+direction `-n`:
+* `Intersecting` ⇒ the sets share a point; `Disjoint` ⇒ every pair is farther apart than `margin`;
+* `WithinMargin(p1, p2)` ⇒ `p1` lies in the half-space, `p2 ∈ S2` (local), `pos12·p2` is the placed point,
+  the pair is a closest pair, and its gap is positive and `≤ margin`. -/
+theorem closestPointsHalfspaceSupportMap_spec (S2 : V3 K → Prop) (supp : Iso3 K → V3 K → V3 K) (pos12 : Iso3 K)
+    (n : V3 K) (margin : K) (hn : n.x * n.x + n.y * n.y + n.z * n.z = 1) (hm : 0 ≤ margin)
+    (hq : pos12.qi * pos12.qi + pos12.qj * pos12.qj + pos12.qk * pos12.qk + pos12.qw * pos12.qw = 1) :
+    letI := fieldNum K sq
+    SupportsIn (Placed3 sq pos12 S2) n.neg (supp pos12 n.neg) →
+    match closestPointsHalfspaceSupportMap supp pos12 n margin with
+    | none => False
+    | some .intersecting => ∃ p, HalfAt n p ∧ Placed3 sq pos12 S2 p
+    | some .disjoint => ∀ a b, HalfAt n a → Placed3 sq pos12 S2 b → margin * margin < (b.sub a).normSq
+    | some (.within p1 p2) =>
+        HalfAt n p1 ∧ S2 p2 ∧ Placed3 sq pos12 S2 (pos12.act p2) ∧
+        (∀ a b, HalfAt n a → Placed3 sq pos12 S2 b → ((pos12.act p2).sub p1).normSq ≤ (b.sub a).normSq) ∧
+        ((pos12.act p2).sub p1).normSq ≤ margin * margin ∧ 0 < ((pos12.act p2).sub p1).normSq := by
+  generalize hR : @closestPointsHalfspaceSupportMap K (fieldNum K sq) supp pos12 n margin = R
+  dsimp only [closestPointsHalfspaceSupportMap] at hR
+  rw [if_neg (not_not.2 hm)] at hR
+  generalize @supp pos12 (@V3.neg K (fieldNum K sq) n) = q at *
+  rintro ⟨hqS, hmax⟩
+  have hact := act_invAct3 sq pos12 q hq
+  simp only [V3.neg] at hmax
+  have key : ∀ a b, HalfAt n a → Placed3 sq pos12 S2 b → 0 ≤ n.x * q.x + n.y * q.y + n.z * q.z →
+      (n.x * q.x + n.y * q.y + n.z * q.z) * (n.x * q.x + n.y * q.y + n.z * q.z) ≤
+        (b.x - a.x) * (b.x - a.x) + (b.y - a.y) * (b.y - a.y) + (b.z - a.z) * (b.z - a.z) := by
+    intro a b ha hb h0
+    have hb' := hmax b hb
+    simp only [HalfAt] at ha
+    have := sep_along3 n ⟨b.x - a.x, b.y - a.y, b.z - a.z⟩ 1 _ one_pos (by simp only [dot3]; linarith) h0
+      (by simp only [dot3]; nlinarith)
+    simpa [dot3] using this
+  split_ifs at hR with h1 h2 <;> subst hR <;> simp only [V3.dot, V3.neg] at h1 ⊢
+  · -- intersecting
+    simp only [V3.dot, V3.neg] at h2
+    exact ⟨q, by simp only [HalfAt]; linarith, hqS⟩
+  · -- within
+    simp only [V3.dot, V3.neg] at h2
+    push Not at h2
+    rw [hact]
+    set δ := n.x * q.x + n.y * q.y + n.z * q.z with hδ
+    have hd : n.x * -q.x + n.y * -q.y + n.z * -q.z = -δ := by ring
+    rw [hd] at h1 h2 ⊢
+    have hpos : 0 < δ := by linarith
+    have hg : (q.x - (q.x + n.x * -δ)) * (q.x - (q.x + n.x * -δ)) + (q.y - (q.y + n.y * -δ)) * (q.y - (q.y + n.y * -δ)) +
+        (q.z - (q.z + n.z * -δ)) * (q.z - (q.z + n.z * -δ)) = δ * δ := by linear_combination (δ * δ) * hn
+    simp only [V3.add, V3.smul, V3.sub, V3.normSq, V3.dot, HalfAt]
+    rw [hg]
+    refine ⟨?_, hqS, hqS, ?_, ?_, ?_⟩
+    · nlinarith
+    · intro a b ha hb
+      exact key a b ha hb hpos.le
+    · nlinarith
+    · exact mul_pos hpos hpos
+  · -- disjoint
+    push Not at h1
+    intro a b ha hb
+    set δ := n.x * q.x + n.y * q.y + n.z * q.z with hδ
+    have hd : n.x * -q.x + n.y * -q.y + n.z * -q.z = -δ := by ring
+    rw [hd] at h1
+    have h := key a b ha hb (by linarith)
+    simp only [V3.sub, V3.normSq, V3.dot]
+    nlinarith [mul_pos (show 0 < δ - margin by linarith) (show 0 < δ + margin by linarith)]
+
+/-- the solid box `[-he, he]` (the set of `Cuboid3.Mem`) -/
+def CubAt (he : V3 K) (p : V3 K) : Prop :=
+  (-he.x ≤ p.x ∧ p.x ≤ he.x) ∧ (-he.y ≤ p.y ∧ p.y ≤ he.y) ∧ (-he.z ≤ p.z ∧ p.z ≤ he.z)
+
+private theorem cs_axis (h d y : K) (hh : 0 ≤ h) (h1 : -h ≤ y) (h2 : y ≤ h) :
+    d * y ≤ d * (if d < 0 then -|h| else |h|) := by
+  rw [abs_of_nonneg hh]
+  split_ifs with hd
+  · nlinarith
+  · push Not at hd; nlinarith
+
+/-- **The cuboid support map honours the C10 contract** (every direction, unit quaternion, half-extents `≥ 0`):
+`Cuboid::support_point(pos12, dir)` is a point of the placed box maximising `dir·x` over it. -/
+theorem cuboidSupport_supports (he : V3 K) (pos12 : Iso3 K) (dir : V3 K)
+    (hhe : 0 ≤ he.x ∧ 0 ≤ he.y ∧ 0 ≤ he.z)
+    (hq : pos12.qi * pos12.qi + pos12.qj * pos12.qj + pos12.qk * pos12.qk + pos12.qw * pos12.qw = 1) :
+    letI := fieldNum K sq
+    letI := fieldBits K
+    SupportsIn (Placed3 sq pos12 (CubAt he)) dir (cuboidSupport he pos12 dir) := by
+  obtain ⟨hx, hy, hz⟩ := hhe
+  simp only [SupportsIn, Placed3, cuboidSupport]
+  have hinv := fun y => invAct_act3 sq pos12 y hq
+  constructor
+  · rw [hinv]
+    simp only [CubAt, cuboidLocalSupport, copysign, abs_of_nonneg hx, abs_of_nonneg hy, abs_of_nonneg hz]
+    refine ⟨?_, ?_, ?_⟩ <;> split_ifs <;> constructor <;> linarith
+  · intro x hx'
+    have hact := act_invAct3 sq pos12 x hq
+    generalize @Iso3.invAct K (fieldNum K sq) pos12 x = y at hx' hact
+    rw [← hact]
+    have adj := fun v => rot_adj3 sq pos12 v dir
+    simp only [Iso3.act, V3.add, V3.dot] at adj ⊢
+    have e1 := adj y
+    have e2 := adj (@cuboidLocalSupport K (fieldBits K) he (@Iso3.invRot K (fieldNum K sq) pos12 dir))
+    generalize @Iso3.invRot K (fieldNum K sq) pos12 dir = d' at *
+    obtain ⟨⟨a1, a2⟩, ⟨b1, b2⟩, c1, c2⟩ := hx'
+    have k1 := cs_axis he.x d'.x y.x hx a1 a2
+    have k2 := cs_axis he.y d'.y y.y hy b1 b2
+    have k3 := cs_axis he.z d'.z y.z hz c1 c2
+    simp only [cuboidLocalSupport, copysign] at e2 ⊢
+    generalize @Iso3.rot K (fieldNum K sq) pos12 y = ry at *
+    generalize @Iso3.rot K (fieldNum K sq) pos12 ⟨if d'.x < 0 then -|he.x| else |he.x|, if d'.y < 0 then -|he.y| else |he.y|,
+      if d'.z < 0 then -|he.z| else |he.z|⟩ = rs at *
+    linarith
+private theorem invRot_normSq3 (m : Iso3 K) (v : V3 K)
+    (hq : m.qi * m.qi + m.qj * m.qj + m.qk * m.qk + m.qw * m.qw = 1) :
+    letI := fieldNum K sq
+    (m.invRot v).normSq = v.normSq := by
+  have h1 := rot_normSq3 sq m (@Iso3.invRot K (fieldNum K sq) m v) hq
+  rw [rot_invRot3 sq m v hq] at h1
+  exact h1.symm
+
+private theorem invAct_add_t (m : Iso3 K) (v : V3 K) :
+    letI := fieldNum K sq
+    m.invAct (m.t.add v) = m.invRot v := by
+  simp only [Iso3.invAct]
+  congr 1
+  obtain ⟨a, b, c⟩ := v
+  simp only [V3.add, V3.sub, V3.mk.injEq]
+  refine ⟨?_, ?_, ?_⟩ <;> ring
+
+/-- **The ball support map honours the C10 contract** for unit directions:
+`Ball::support_point_toward(pos12, dir) = t + dir·r` is a point of the placed ball maximising `dir·x` over it. -/
+theorem ballSupportToward_supports (r : K) (pos12 : Iso3 K) (dir : V3 K) (hr : 0 ≤ r)
+    (hd : dir.x * dir.x + dir.y * dir.y + dir.z * dir.z = 1)
+    (hq : pos12.qi * pos12.qi + pos12.qj * pos12.qj + pos12.qk * pos12.qk + pos12.qw * pos12.qw = 1) :
+    letI := fieldNum K sq
+    SupportsIn (Placed3 sq pos12 (BallAt r ⟨0, 0, 0⟩)) dir (ballSupportToward r pos12 dir) := by
+  simp only [SupportsIn, Placed3, ballSupportToward]
+  constructor
+  · rw [invAct_add_t]
+    have h := invRot_normSq3 sq pos12 (@V3.smul K (fieldNum K sq) dir r) hq
+    generalize @Iso3.invRot K (fieldNum K sq) pos12 (@V3.smul K (fieldNum K sq) dir r) = v at h ⊢
+    simp only [V3.normSq, V3.dot, V3.smul] at h
+    simp only [BallAt]
+    have e : dir.x * r * (dir.x * r) + dir.y * r * (dir.y * r) + dir.z * r * (dir.z * r) = r * r := by
+      linear_combination (r * r) * hd
+    linarith
+  · intro x hx
+    have hact := act_invAct3 sq pos12 x hq
+    generalize @Iso3.invAct K (fieldNum K sq) pos12 x = y at hx hact
+    rw [← hact]
+    have adj := rot_adj3 sq pos12 y dir
+    have hn := invRot_normSq3 sq pos12 dir hq
+    simp only [Iso3.act, V3.add, V3.dot, V3.smul, V3.normSq] at adj hn ⊢
+    generalize @Iso3.invRot K (fieldNum K sq) pos12 dir = d' at *
+    generalize @Iso3.rot K (fieldNum K sq) pos12 y = ry at *
+    simp only [BallAt] at hx
+    have := dot_le3 d' y 1 r zero_le_one hr (by simp only [dot3]; linarith) (by simp only [dot3]; nlinarith)
+    simp only [dot3] at this
+    nlinarith
+
+/-- `Ball::support_point(pos12, dir)` (which normalises `dir`) honours the contract for every non-zero direction. -/
+theorem ballSupport_supports (hs : LawfulSqrt sq) (r : K) (pos12 : Iso3 K) (dir : V3 K) (hr : 0 ≤ r)
+    (hd : 0 < dir.x * dir.x + dir.y * dir.y + dir.z * dir.z)
+    (hq : pos12.qi * pos12.qi + pos12.qj * pos12.qj + pos12.qk * pos12.qk + pos12.qw * pos12.qw = 1) :
+    letI := fieldNum K sq
+    SupportsIn (Placed3 sq pos12 (BallAt r ⟨0, 0, 0⟩)) dir (ballSupport r pos12 dir) := by
+  have hS0 := hs.nonneg _ hd.le
+  have hSS := hs.sq_mul _ hd.le
+  simp only [ballSupport, V3.norm, V3.normSq, V3.dot, fieldNum_sqrt]
+  generalize sq (dir.x * dir.x + dir.y * dir.y + dir.z * dir.z) = S at *
+  have hSpos : 0 < S := by
+    rcases eq_or_lt_of_le hS0 with h | h
+    · rw [← h] at hSS; linarith
+    · exact h
+  have hne : S ≠ 0 := ne_of_gt hSpos
+  have hu : dir.x / S * (dir.x / S) + dir.y / S * (dir.y / S) + dir.z / S * (dir.z / S) = 1 := by
+    field_simp; linarith
+  obtain ⟨h1, h2⟩ := ballSupportToward_supports sq r pos12 (@V3.sdiv K (fieldNum K sq) dir S) hr hu hq
+  refine ⟨h1, fun x hx => ?_⟩
+  have h3 := h2 x hx
+  generalize @ballSupportToward K (fieldNum K sq) r pos12 (@V3.sdiv K (fieldNum K sq) dir S) = q at *
+  simp only [V3.sdiv] at h3
+  have ex : dir.x = dir.x / S * S := by field_simp
+  have ey : dir.y = dir.y / S * S := by field_simp
+  have ez : dir.z = dir.z / S * S := by field_simp
+  rw [ex, ey, ez]
+  generalize dir.x / S = ux at *; generalize dir.y / S = uy at *; generalize dir.z / S = uz at *
+  nlinarith
+
+/-- non-vacuity for the half-space theorems: the unit normal `(3/5, 4/5, 0)`, the box `[-1,1]×[-2,2]×[-1/2,1/2]`
+(half-extents `≥ 0`) and the exact unit quaternion `(1/2, 1/2, 1/2, 1/2)` satisfy every side condition. -/
+example : ((3/5 : ℚ) * (3/5) + (4/5) * (4/5) + 0 * 0 = 1) ∧ ((0:ℚ) ≤ 1 ∧ (0:ℚ) ≤ 2 ∧ (0:ℚ) ≤ 1/2) ∧
+    ((1/2 : ℚ) * (1/2) + (1/2) * (1/2) + (1/2) * (1/2) + (1/2) * (1/2) = 1) := by norm_num
+
 end C01
